@@ -86,7 +86,8 @@ Proof. exact can_skip_below. Qed.
    Named _partial: the hypothesis cov_monotone ("below a rectangle b with cov b = CONTAINS, every meta tile that
    get_affected_level_tiles selects for a sub-rectangle of b is not NONE") combines monotonicity of the coverage
    with the geometric fact that a selected meta tile overlaps the rectangle it was selected for (C03's
-   affected_tiles_no_touch, for MetaGrid); that geometric fact is not proved here. *)
+   affected_tiles_no_touch, for MetaGrid).  Superseded by walk_sound below, where the geometric fact is proved and only
+   a condition on the coverage alone remains; kept because it needs neither fine_res nor a proper start rectangle. *)
 Theorem walk_sound_partial :
   forall g msx msy cov levels root old t,
     geo_wf g msx msy -> levels_wf g levels -> levels <> [] ->
@@ -94,6 +95,72 @@ Theorem walk_sound_partial :
     In t (procs (geo_walk g msx msy cov 0 levels root old)) ->
     cov (meta_bbox g msx msy t) <> 0.
 Proof. exact walk_sound_geo_lemma. Qed.
+
+(* Nothing else WITHOUT cov_monotone: the geometric fact is proved (Seed_proofs.selected_overlaps: every meta tile that
+   get_affected_level_tiles lists for a rectangle of positive area overlaps that rectangle with positive area, on every
+   grid shape, meta size and origin, including the centre-line rule for rectangles thinner than 2/10 pixel), so only a
+   condition on the coverage itself is left: cov_overlap_monotone cov = "when the coverage CONTAINS a rectangle b, no
+   rectangle that overlaps b with positive area is NONE" (true of every set-theoretic coverage: polygons, multi
+   coverages, other SRS).  Other premises: proper root = the rectangle the walk starts from (the coverage extent) has
+   positive width and height; fine_res g = the coordinate quantum is at most 1/10 pixel of every level (10 <= res, so that
+   the 1/10-pixel inset res / 10 of the model is not rounded to zero - a convention of the integer model, not a
+   restriction on grids).  Then a task without skip_geoms_for_last_levels, run to completion or continued from any
+   saved progress, hands over only meta tiles that are not NONE - including those taken without a test below a
+   CONTAINED meta tile. *)
+Theorem walk_sound :
+  forall g msx msy cov levels root old t,
+    geo_wf g msx msy -> fine_res g -> levels_wf g levels -> levels <> [] -> proper root ->
+    cov_overlap_monotone cov ->
+    In t (procs (geo_walk g msx msy cov 0 levels root old)) ->
+    cov (meta_bbox g msx msy t) <> 0.
+Proof. exact walk_sound_overlap_lemma. Qed.
+
+(* The geometric fact itself (get_affected_level_tiles of MetaGrid never lists a meta tile that merely touches the
+   rectangle or lies outside it). *)
+Theorem selected_meta_tiles_overlap :
+  forall g msx msy cur l t,
+    geo_wf g msx msy -> fine_res g -> valid_level g l = true -> proper cur ->
+    In (Some t) (affected_tiles g msx msy cur l) ->
+    overlaps (meta_bbox g msx msy t) cur.
+Proof. exact selected_overlaps. Qed.
+
+(* bbox coverages and multi coverages of bboxes in the grid SRS (cov_bboxes = SeedTask.intersects for them, compared
+   with the real code by the correspondence) satisfy the condition, provided the 1e-13 relative tolerance of
+   grid.bbox_contains is below the coordinate quantum (exact_tol: every coverage bbox is narrower than 1e13 quanta) ... *)
+Theorem bbox_coverages_overlap_monotone :
+  forall cs, exact_tol cs -> cov_overlap_monotone (cov_bboxes cs).
+Proof. exact cov_bboxes_overlap_monotone. Qed.
+
+(* ... hence the closed statement for these coverages, with no premise about the coverage predicate: every meta tile
+   handed to the workers intersects (or lies in) one of the coverage bboxes. *)
+Theorem walk_sound_bbox_coverages :
+  forall g msx msy cs levels root old t,
+    geo_wf g msx msy -> fine_res g -> levels_wf g levels -> levels <> [] -> proper root -> exact_tol cs ->
+    In t (procs (geo_walk g msx msy (cov_bboxes cs) 0 levels root old)) ->
+    exists c, In c cs /\ (bbox_contains_tol c (meta_bbox g msx msy t) = true \/
+                          bbox_intersects c (meta_bbox g msx msy t) = true).
+Proof. exact walk_sound_bboxes_lemma. Qed.
+
+(* Why fine_res is a premise: in the integer model a resolution below 10 quanta makes the inset res / 10 zero, and then
+   a tile that merely touches a CONTAINED rectangle is taken without a test (witness: 8 x 8 grid, resolutions 4 and 2,
+   coverage (0, 0, 4, 4), tile (2, 0, 1)).  The implementation's inset is never zero; the premise only fixes the
+   scaling of the integer coordinates. *)
+Theorem walk_sound_coarse_quantum_refuted :
+  exists g msx msy cs levels root t,
+    geo_wf g msx msy /\ levels_wf g levels /\ levels <> [] /\ proper root /\ exact_tol cs /\
+    In t (procs (geo_walk g msx msy (cov_bboxes cs) 0 levels root None)) /\
+    cov_bboxes cs (meta_bbox g msx msy t) = 0.
+Proof. exact walk_sound_coarse_quantum_refuted_lemma. Qed.
+
+(* For EVERY coverage predicate and EVERY skip_geoms_for_last_levels (where tiles of the last levels are taken without a
+   coverage test, so walk_sound cannot hold): no task, complete or continued, hands over a meta tile outside the
+   rectangle it starts from (the extent of the coverage) - each one overlaps it with positive area. *)
+Theorem walk_within_start_rectangle :
+  forall g msx msy cov skipk levels root old t,
+    geo_wf g msx msy -> fine_res g -> levels_wf g levels -> levels <> [] -> proper root ->
+    In t (procs (geo_walk g msx msy cov skipk levels root old)) ->
+    overlaps (meta_bbox g msx msy t) root.
+Proof. exact walk_within_start_rect_lemma. Qed.
 
 (* ---- everything selected *)
 
